@@ -15,9 +15,14 @@ Streams
      1-2 metrics) are sent through the real `PEP.solve(wrapper="mosek")`; the recorded call log (up to and including
      a call that raises) must equal Model.Mosek.emit_session applied to the sent list, which is recorded
      independently by a recording Wrapper on a second build of the same program.  Solves are scripted (distinct
-     numbers for xx, a dense dyadic PSD matrix for barx, zeros elsewhere).
+     numbers for xx, y and the bars matrices, a dense dyadic PSD matrix for barx); what _recover_dual_values makes of
+     the scripted answer (residual, every eval_dual(), every PSDMatrix.entries_dual_variable_value) is compared with
+     Model.Mosek.recover exactly.
  (b) `end-to-end`: curated bounded models solved with wrapper="cvxpy" (SCS) and wrapper="mosek" (stand-in, SCS):
-     value, eval_dual() of every constraint, residual, Gram matrix of the leaf points; both certificates checked.
+     value, eval_dual() of every constraint, residual, Gram matrix of the leaf points; both certificates checked (with
+     the ENTRY duals on the LMI expressions, as the repaired check_feasibility does); on each path
+     sym(entries_dual_variable_value) must be the reported dual matrix; models with LMIs of sizes 1, 2, 3, LMIs that
+     are not symmetric as written, class LMIs followed by user LMIs.
  (c) `heuristic-log` / `heuristic-solves`: "trace" / "logdetN" on both paths: call logs vs. model (scripted solves; the
      logdet weights are RECOMPUTED by the harness from the logged Gram matrices with pep.py's own formula and must be
      emitted entry by entry) and real solves.
@@ -40,8 +45,9 @@ TRUSTED = [
     "by MOSEK and written down in the stand-in's docstring (A1), mirrored by Model/Mosek.v `step`; the real MOSEK is "
     "not installed and was never consulted",
     "Model/Mosek.v `emit_session` is a hand-written model of mosek_wrapper.py (set_main_variables, send_constraint, "
-    "send_lmi_constraint, generate_problem, solve, _recover_dual_values, prepare_heuristic, heuristic), tied by the "
-    "call-log stream (exact comparison of every argument)",
+    "send_lmi_constraint, generate_problem, solve, prepare_heuristic, heuristic) and `recover` of _recover_dual_values "
+    "(scalar duals, -getbarsj matrices through _get_Gram_from_mosek, entry duals -y[first:first+n*n]), tied by the "
+    "call-log stream (exact comparison of every call argument and of every recovered dual on scripted solver answers)",
     "Model/Matrices.v (package C05) for expression_to_sparse_matrices; Proofs/C05Lemmas.sparse_correct for its Gram reading",
     "numpy: `int + np.zeros(shape, dtype=np.int32)` raises OverflowError for int >= 2^31 and for no smaller int (numpy >= 2, "
     "NEP 50); checked at every run against the installed numpy",
@@ -54,12 +60,15 @@ ASSUMES = [
     "senses; for maximisation the slacks and Sbar_j are <= 0 / negative semidefinite (so y >= 0 on `up` rows and "
     "-Sbar_j is PSD) -- derived from MOSEK's documented primal/dual pair; consistent with what "
     "tests/test_wrappers.py::TestWrapperMOSEK expects; C11_duals is stated under exactly these equations",
+    "the SIGN of MOSEK's y on the LMI entry rows (hence of entries_dual_variable_value = -y[...]) is taken from MOSEK's "
+    "documented dual equation Sbar_j = Cbar_j - sum_i y_i Abar_ij as implemented by the stand-in, NOT from the real solver, "
+    "which is absent here; C11_entry_duals_mosek / C11_duals_entries are stated under exactly that equation",
     "A3 after optimize on an infeasible/unbounded problem getxx/getbarxj return numbers (a certificate), not None",
 ]
 
 IMPORTS = ["From PV Require Import Model.Sent Model.Matrices Model.Mosek."]
-RUN = "fun '(l, pc, ec, obj, heur) => dump_session l pc ec obj heur"
-INPUT_TYPE = "(sent * nat * nat * nat * option (Q * list (list triple)))"
+RUN = "fun '(l, pc, ec, obj, heur, sol) => dump_session l pc ec obj heur sol"
+INPUT_TYPE = "(sent * nat * nat * nat * option (Q * list (list triple)) * option (list Q * list (list Q)))"
 
 CLASSES = ["ConvexFunction", "SmoothConvexFunction", "SmoothStronglyConvexFunction", "StronglyConvexFunction",
            "ConvexQGFunction", "RsiEbFunction", "ConvexLipschitzFunction", "SmoothFunction", "LipschitzOperator",
@@ -366,13 +375,18 @@ def coq_triples(tr):
     return coq_list(["(%s, %s, %s)" % (coq_nat(i), coq_nat(j), coq_q(v)) for i, j, v in tr])
 
 
-def coq_case(rec, heur):
+def coq_case(rec, heur, sol=None):
+    if sol is None:
+        so = "None"
+    else:
+        so = "Some (%s, %s)" % (coq_list([coq_q(v) for v in sol[0]]),
+                                coq_list([coq_list([coq_q(v) for v in b]) for b in sol[1]]))
     if heur is None:
         h = "None"
     else:
         h = "Some (%s, %s)" % (coq_q(heur[0]), coq_list([coq_triples(w) for w in heur[1]]))
-    return "(%s, %s, %s, %s, %s)" % (coq_sent(rec["sent"]), coq_nat(rec["pc"]), coq_nat(rec["ec"]),
-                                     coq_nat(rec["obj"]), h)
+    return "(%s, %s, %s, %s, %s, %s)" % (coq_sent(rec["sent"]), coq_nat(rec["pc"]), coq_nat(rec["ec"]),
+                                         coq_nat(rec["obj"]), h, so)
 
 
 # ------------------------------------------------------------------------------------------ the call log
@@ -508,7 +522,26 @@ def one_case(spec, heuristic=None, tol=0.25, nsolve=1):
             heur = (to_fraction(xx[0][rec["obj"]] - tol), heur_weights(res["calls"], heuristic, rec["pc"]))
         else:
             heur = (Fraction(0), [])            # never reached the first read: the model stops before, too
-    expected = [log, not api_error, exp["guard"]]
+    # what the solver answered to the first solve (input of the model's `recover`) and what the wrapper made of it
+    sol, recovered = None, []
+    ys = [ret for name, a, ret in res["calls"] if name == "gety" and ret is not None]
+    wrapper = getattr(res["pep"], "wrapper", None)
+    if ys and wrapper is not None and wrapper.residual is not None:
+        bars = {}
+        for name, a, ret in res["calls"]:
+            if name == "getbarsj" and ret is not None and a[1] not in bars:
+                bars[a[1]] = ret
+        sol = (ys[0], [bars.get(j, []) for j in range(max(bars) + 1)])
+        items = []
+        for it in wrapper._list_of_constraints_sent_to_solver:
+            if type(it).__name__ == "Constraint":
+                items.append(Q(it._dual_variable_value))
+            else:
+                ed = it.entries_dual_variable_value
+                items.append([[[Q(v) for v in r] for r in np.array(it._dual_variable_value).tolist()],
+                              [[Q(v) for v in r] for r in np.array(ed).tolist()] if ed is not None else "missing"])
+        recovered = [[[Q(v) for v in r] for r in np.array(wrapper.residual).tolist()], items]
+    expected = [log, not api_error, exp["guard"], recovered]
     problems = []
     base = dict(spec=spec, heuristic=heuristic, tol=tol, nsolve=nsolve, raised=list(raised) if raised else None,
                 psd_counters=exp["ctrs"], rows=exp["rows"], objective_counter=rec["obj"], expression_counter=rec["ec"])
@@ -516,7 +549,7 @@ def one_case(spec, heuristic=None, tol=0.25, nsolve=1):
         problems.append(dict(kind="mosek-wrapper-not-reached", **base))
     if raised:
         problems.append(dict(kind="mosek-path-raised", **base))
-    return coq_case(rec, heur), expected, problems, dict(exp=exp, raised=raised, nlog=len(log), rec=rec)
+    return coq_case(rec, heur, sol), expected, problems, dict(exp=exp, raised=raised, nlog=len(log), rec=rec)
 
 
 # ------------------------------------------------------------------------------------------ stream (a), (c)
@@ -553,12 +586,12 @@ def stream_logs(name, tier, seed, specs, heuristics, rule):
     for i in bad[:3]:
         spec, heur, expected, info = metas[i]
         mism.append(dict(kind="model-differs", spec=spec, heuristic=heur, implementation=jsonable(expected)[0][-12:],
-                         implementation_flags=expected[1:], model=model_output(IMPORTS, RUN, cases[i][0])[-3000:]))
+                         implementation_flags=expected[1:3], model=model_output(IMPORTS, RUN, cases[i][0])[-3000:]))
     # a disagreement between model and implementation is a violation in its own right (the driver only turns a broken
     # stream into a violation when no other problem was reported, and the known-finding triggers are reported here)
     for i in bad[:3]:
         problems.append(dict(kind="model-differs", spec=metas[i][0], heuristic=metas[i][1],
-                             implementation_tail=jsonable(metas[i][2])[0][-6:], flags=metas[i][2][1:]))
+                             implementation_tail=jsonable(metas[i][2])[0][-6:], flags=metas[i][2][1:3]))
     rows = hist.pop("rows")
     lm = hist.pop("lmis")
     hist.update(rows_min=min(rows or [0]), rows_max=max(rows or [0]), rows_mean=round(sum(rows) / max(1, len(rows)), 1),
@@ -630,6 +663,22 @@ def curated_specs():
                          ["lmi", "f0", [[["sq", P0], ["x", 4]], [["x", 4], ["const", 1]]]],
                          ["cons", "f0", ["x", 4], "<=", ["const", 2]]],
                     metrics=[["lin", [[1, ["x", 3]], [0.5, ["x", 4]]]]]))
+    # three LMIs of sizes 1, 2 (ASYMMETRIC as written: leaves t and s in mirrored positions, forcing t == s), 3
+    out.append(dict(funcs=[dict(cls="SmoothStronglyConvexFunction", params=dict(mu=0.1, L=1.0), stationary=True)],
+                    steps=1, gamma=1.0,
+                    ops=[["leaf"], ["leaf"], ["leaf"], init,
+                         ["lmi", "pep", [[["lin", [[1, ["const", 2]], [-1, ["x", 5]]]]]]],
+                         ["lmi", "pep", [[["sq", [[1, 3], [-1, 1]]], ["x", 3]], [["x", 4], ["const", 1]]]],
+                         ["lmi", "f0", [[["sq", P0], ["x", 5], ["const", 0]],
+                                        [["x", 5], ["const", 1], ["x", 3]],
+                                        [["const", 0], ["x", 4], ["const", 2]]]]],
+                    metrics=[["lin", [[1, ["x", 3]], [0.25, ["x", 5]]]]]))
+    # class LMI that is not symmetric as written (SymmetricLinearOperator with two samples) + a user LMI after it
+    out.append(dict(funcs=[dict(cls="SymmetricLinearOperator", params=dict(mu=0.0, L=1.0), stationary=False)],
+                    steps=1, gamma=0.5,
+                    ops=[["leaf"], ["cons", "pep", ["sq", [[1, 0]]], "<=", ["const", 1]],
+                         ["lmi", "f0", [[["sq", [[1, 3]]], ["x", 2]], [["x", 2], ["const", 1]]]]],
+                    metrics=[["x", 2]]))
     # convex QG with a declared stationary point
     out.append(dict(funcs=[dict(cls="ConvexQGFunction", params=dict(L=1.0), stationary=True)],
                     steps=1, gamma=0.5, ops=[init], metrics=[["lin", [[1, ["x", 2]], [-1, ["x", 0]]]]]))
@@ -674,9 +723,12 @@ def certificate_residual(p):
     for m in p._list_of_psd_sent_to_wrapper:
         S = m.eval_dual()
         min_eig = min(min_eig, float(np.min(np.linalg.eigvalsh((S + S.T) / 2))))
+        # the entries' expressions are combined with the ENTRY duals (bd99691); their symmetric part is S
+        U = getattr(m, "entries_dual_variable_value", None)
+        U = S if U is None else np.array(U)
         for i in range(m.shape[0]):
             for j in range(m.shape[1]):
-                add(m[i, j].decomposition_dict, S[i, j])
+                add(m[i, j].decomposition_dict, U[i, j])
     Gs = (G + G.T) / 2
     resid = max([float(np.max(np.abs(Gs)))] if n else [0.0]) if n else 0.0
     resid = max([resid] + [abs(v) for v in F.values()])
@@ -715,6 +767,9 @@ def solve_both(spec, heuristic=None, tol=1e-4, nsolve=1):
             if obs["value"] is not None:
                 obs["duals"] = [float(c.eval_dual()) for c in p._list_of_constraints_sent_to_wrapper]
                 obs["lmi_duals"] = [np.array(m.eval_dual()) for m in p._list_of_psd_sent_to_wrapper]
+                obs["entry_duals"] = [None if getattr(m, "entries_dual_variable_value", None) is None
+                                      else np.array(m.entries_dual_variable_value)
+                                      for m in p._list_of_psd_sent_to_wrapper]
                 obs["residual"] = np.array(p.residual)
                 obs["gram"] = gram_of_leaves()
                 obs["F"] = np.array([e.eval() for e in __import__("PEPit").Expression.list_of_leaf_expressions])
@@ -766,6 +821,21 @@ def compare_paths(spec, obs, heuristic=None):
             probs.append(dict(kind="primal-instance-invalid", path=w, violation=o["primal_violation"], **base))
         if abs(o["primal_value"] - a["value"]) > (TOL if not heuristic else 10 * TOL + 2e-4):
             probs.append(dict(kind="primal-value-differs", path=w, primal=o["primal_value"], value=a["value"], **base))
+    # one convention for the entry duals: on EACH path their symmetric part is the reported dual matrix
+    for w in ("cvxpy", "mosek"):
+        o = obs[w]
+        for k, (S, U) in enumerate(zip(o["lmi_duals"], o["entry_duals"])):
+            if U is None or U.shape != S.shape:
+                probs.append(dict(kind="entry-duals-missing", path=w, lmi=k, **base))
+            else:
+                dev = float(np.max(np.abs((U + U.T) / 2 - S))) if S.size else 0.0
+                stats[w + "_sym_entries_minus_dual"] = max(stats.get(w + "_sym_entries_minus_dual", 0.0), dev)
+                if dev > TOL:
+                    probs.append(dict(kind="entry-duals-not-the-reported-dual", path=w, lmi=k, deviation=dev,
+                                      entries_dual=U.tolist(), dual=S.tolist(), **base))
+    de = max([float(np.max(np.abs((x + x.T) / 2 - (y + y.T) / 2))) for x, y in zip(a["entry_duals"], b["entry_duals"])
+              if x is not None and y is not None and x.size] + [0.0])
+    stats["sym_entry_dual_diff"] = de
     # direct agreement (meaningful when optimal primal/dual solutions are unique; otherwise both valid ones may differ)
     dd = max([abs(x - y) for x, y in zip(a["duals"], b["duals"])] + [0.0])
     dl = max([float(np.max(np.abs(x - y))) for x, y in zip(a["lmi_duals"], b["lmi_duals"])] + [0.0])
@@ -899,7 +969,7 @@ def stream_regressions(tier, seed):
     for i in bad:
         name, spec, heur, nsolve, expected, info = metas[i]
         pr = dict(kind="model-differs", regression=name, spec=spec, heuristic=heur, nsolve=nsolve,
-                  implementation_tail=jsonable(expected)[0][-6:], flags=expected[1:])
+                  implementation_tail=jsonable(expected)[0][-6:], flags=expected[1:3])
         problems.append(pr)
         mism.append(dict(pr, model=model_output(IMPORTS, RUN, cases[i][0])[-2000:]))
     return dict(name="regressions", evaluations=2 * len(regression_cases()), distinct_nontrivial=len(regression_cases()),
